@@ -403,7 +403,9 @@ class Engine:
         """fork on the value of an Int term in [lo, hi]; returns python int"""
         t = z3.simplify(term)
         if z3.is_int_value(t): return t.as_long()
-        k = s.choose([term == j for j in range(lo, hi + 1)])
+        n = hi - lo + 1
+        k = s.choose([term == j for j in range(lo, hi + 1)] + [z3.Or(term < lo, term > hi)])
+        if k == n: raise Abort(f'value outside {lo}..{hi} (index / shift amount out of range)')
         return lo + k
 
     def explore(s, run, max_paths=200000):
@@ -745,6 +747,8 @@ class Engine:
     # ------------------------------------------------ calls
     def resolve(s, callee, argtys):
         if callee in s.by_name: return s.by_name[callee]
+        # receiver type unknown statically (trait object / generic Self / type parameter): dynamic dispatch decides
+        if re.match(r'^<(?:&(?:mut )?)?(?:Self|dyn [^>]*|[A-Z]|Box<dyn .*>|(?:std::rc::)?Rc<dyn .*>) as ', callee): return None
         meth = callee.split('::')[-1]; nat = [norm(t) for t in argtys]
         mm = re.match(r'^<(.*?) as .*>::\w+$', callee)
         selfty = norm(mm.group(1)) if mm else (norm('::'.join(callee.split('::')[:-1])) if '::' in callee else None)
@@ -794,7 +798,38 @@ class Engine:
         if r is not NotImplemented: s.used_models.add(re.sub(r'\{closure@[^}]*\}', '{closure}', callee)); return r
         f = s.resolve(callee, argtys)
         if f is not None: return s.run_fn(f, args)
+        r = s.dyn_dispatch(callee, args)
+        if r is not NotImplemented: return r
         raise Missing(f'no model for {callee0}  argtys={argtys} (in {fn.name if fn else "?"})')
+
+    def dyn_dispatch(s, callee, args):
+        """trait-object / generic-Self method call: choose the crate impl by the run-time type of the receiver"""
+        if not args or '::' not in callee: return NotImplemented
+        meth = callee.split('::')[-1]
+        recv = args[0]; v = recv
+        hops = 0
+        while isinstance(v, (Ref, BoxV, RcV)) and hops < 6:
+            if isinstance(v, Ref): v = s.read(v.cell, v.path)
+            elif isinstance(v, BoxV): recv = Ref(v.cell, []); v = v.cell.v
+            else: recv = Ref(v.obj.cell, []); v = v.obj.cell.v
+            hops += 1
+        if not isinstance(v, Adt) or v.ty in s.enums and v.ty in STD_ENUMS: return NotImplemented
+        cands = []
+        for f in s.by_last.get(meth, []):
+            if '{closure' in f.name or len(f.params) != len(args): continue
+            p0 = re.sub(r'^&(mut )?', '', norm(f.params[0][1]))
+            p0 = re.sub(r'<.*>$', '', p0)
+            if p0 == v.ty: cands.append(f)
+        if len(cands) != 1:
+            if not cands:
+                # trait default method (`fn Trait::m(_1: &Self, ..)`)
+                dflt = [f for f in s.by_last.get(meth, []) if len(f.params) == len(args) and norm(f.params[0][1]) in ('&Self', '&mut Self', 'Self') and '{closure' not in f.name]
+                if len(dflt) == 1: cands = dflt
+            if len(cands) != 1: return NotImplemented
+        f = cands[0]
+        a0 = recv if f.params[0][1].strip().startswith('&') else v
+        if isinstance(a0, Adt) and f.params[0][1].strip().startswith('&'): a0 = Ref(Cell(a0))
+        return s.run_fn(f, [a0] + list(args[1:]))
 
     def model(s, callee, args, argtys, callee0):
         for m in s.models:
